@@ -43,7 +43,25 @@ func c14Selector(c C14Case) string {
 	return fmt.Sprintf(`{container=~"c[0-%d]"}`, c.Selected-1)
 }
 
+// c14Query returns the query of a case, the number of selections it resolves and whether it is
+// invalid (must fail). Queries over constructs the engine does not implement today
+// (absent_over_time, label_replace) are not invalid: they may fail or, once implemented, succeed -
+// only the reader accounting and the fault reporting are checked for them (mayFail).
 func c14Query(c C14Case) (q string, waves int, mustFail bool) {
+	q, waves, mustFail, _ = c14QueryX(c)
+	return q, waves, mustFail
+}
+
+func c14QueryX(c C14Case) (q string, waves int, mustFail, mayFail bool) {
+	q, waves, fails := c14QueryBase(c)
+	switch c.Shape {
+	case "binop-right-unsupported", "vecagg-unsupported", "label-replace":
+		return q, waves, false, true
+	}
+	return q, waves, fails, false
+}
+
+func c14QueryBase(c C14Case) (q string, waves int, mustFail bool) {
 	sel := c14Selector(c)
 	rng := "count_over_time(" + sel + "[5s])"
 	switch c.Shape {
@@ -136,7 +154,7 @@ func c14Check(c C14Case) (r evid.Result) {
 		d.ListErr = true
 		faultInSelection = true
 	}
-	query, waves, mustFail := c14Query(c)
+	query, waves, mustFail, mayFail := c14QueryX(c)
 	if selected > 1 {
 		for w := 0; w < waves; w++ {
 			d.Waves = append(d.Waves, selected)
@@ -171,13 +189,15 @@ func c14Check(c C14Case) (r evid.Result) {
 		return r
 	}
 	// (a) a fault inside the data the query must read surfaces as an error.
+	// A construct that is not implemented fails before any data is read; were it implemented,
+	// the fault would have to surface. Either way an error is fine, success only without a fault.
 	mustReach := faultInSelection && c.Shape != "log-limit" && !mustFail
 	switch {
 	case mustFail && err == nil:
 		r.Violation = evid.Viol("C14/invalid-query-accepted", "%s: evaluation succeeded", what)
 	case mustReach && err == nil:
 		r.Violation = evid.Viol("C14/fault-swallowed", "%s: evaluation succeeded (result type %s)", what, data.Type)
-	case !faultInSelection && !mustFail && err != nil:
+	case !faultInSelection && !mustFail && !mayFail && err != nil:
 		r.Violation = evid.Viol("C14/spurious-error", "%s: %v", what, err)
 	}
 	if r.Violation != nil {
